@@ -8,7 +8,7 @@
 From Coq Require Import ZArith List Bool.
 From GV.Gen Require Import Configs.
 From GV.Model Require Import Check.
-From GV.Lemmas Require Import GridL RandL TransL C08L C14L C13W C14W C13M C14M C13X C14X C13K C14K C13R C14R.
+From GV.Lemmas Require Import GridL RandL TransL C08L C14L C13W C14W C13M C14M C13X C14X C13K C14K C13R C14R C13T C14T.
 Import ListNotations.
 Open Scope Z_scope.
 
@@ -82,6 +82,17 @@ Theorem C14_keydoor_winnable : forall h w own own' r, 4 <= h -> 5 <= w -> Leaf (
   exists s acts s', r = Ok s /\ run_actions chainK own' acts s = Ret s' /\
     spos s' = (h - 2, w - 2) /\ is_ty ty_Exit (lookupH (sgrid s') (h - 2, w - 2)) = true /\ sheld s' = Key COL_YELLOW.
 Proof. exact keydoor_winnable. Qed.
+
+(* GENERAL (no bound): every initial state of `teleport` -- every shape >= 4x4, every random outcome (where the two telepods land, the heading)
+   -- is winnable under the shipped dynamics [move_agent; turn_agent; teleport]: two L-shaped routes lead from the agent's corner to the exit's
+   corner and share only the exit; either one of them is free of telepods and is walked, or each carries exactly one telepod: the agent walks
+   the first route up to its telepod, steps on it, arrives on the other telepod -- which lies on the second route -- and walks the rest of it.
+   Every resolution of the (single-option) partner choice ends on the exit. *)
+Theorem C14_teleport_winnable : forall h w own own' r, 4 <= h -> 4 <= w -> Leaf (reset_teleport h w own) r ->
+  exists s acts, r = Ok s /\ Forall (fun a => is_move a = true) acts /\
+    forall x, Leaf (run_actions chainT own' acts s) x -> exists s', x = Ok s' /\ spos s' = (h - 2, w - 2) /\ sgrid s' = sgrid s /\
+                                                              is_ty ty_Exit (lookupH (sgrid s') (h - 2, w - 2)) = true.
+Proof. exact teleport_winnable. Qed.
 
 (* complete outcome trees: every initial state of these parameter sets is winnable by walking *)
 Definition walk_only_enumerable : list rparams :=
